@@ -1020,15 +1020,15 @@ MODEL_NOTE = ('Trusted: Coq 8.16.1 kernel; extraction (ExtrOcamlBasic) + OCaml; 
 
 reg('C01', run_C01, ['Prop_C01.v'], I6RULE + 'non-trivial = distinct (grammar, input) accepted with at least one reduction; every accepted run is re-executed by the verified checker Oracle.replay',
     technique='Coq theorem (LR driver invariant over the constructed automaton) + verified replay checker run on every accepted parse of the real generated parsers + model/implementation correspondence',
-    level_text='Proved in Coq for every grammar, lookahead function, precedence assignment and token string: the table generated from the constructed LR(0) automaton drives the LR machine so that an accepted input has a parse tree with root = start symbol, yield = the input, post-order = the reductions (C01_table_sound); the array-and-pointer driver of the templates equals the abstract machine (C01_go_driver); the same for the whole model pipeline as it is run: grammar object -> automaton -> lookaheads -> resolved table -> packed arrays -> array driver, in all variants (C01_pipeline); the replay checker that is run on every accepted parse of the real five variants is sound (C01_replay_checker). The model pipeline (the functions of the theorems, extracted) is compared with /repo stage by stage (tokens, AST, grammar object, LR(0), lookaheads, table, packed lookup, generated parsers) and end to end from the bytes of the grammar file on every run.',
+    level_text='Proved in Coq for every grammar, lookahead function, precedence assignment and token string: the table generated from the constructed LR(0) automaton drives the LR machine so that an accepted input has a parse tree with root = start symbol, yield = the input, post-order = the reductions (C01_table_sound); the array-and-pointer driver of the templates equals the abstract machine (C01_go_driver); the same for the whole model pipeline as it is run: grammar object -> automaton -> lookaheads -> resolved table -> packed arrays -> array driver, in all variants (C01_pipeline); the replay checker that is run on every accepted parse of the real five variants is sound (C01_replay_checker). The model pipeline (the functions of the theorems, extracted) is compared with /repo stage by stage (tokens, AST, grammar object, LR(0), lookaheads, table, packed lookup, generated parsers) and end to end from the bytes of the grammar file on every run. From the bytes of the file with no side condition: the well-formedness of every grammar object the front end delivers is itself proved (C01_front_delivers_wellformed: FrontWf.front_wf for every AST, ParsedNames.parse_text_lhs for every text - the attempt to prove it found defect F26), so C01_from_the_text states soundness for every text on which the model of the whole generator delivers tables.',
     level_note=MODEL_NOTE)
 reg('C02', run_C02, ['Prop_C02.v'], I6RULE + 'non-trivial = distinct (grammar, sentence) of grammars whose model table has no cell with two candidates',
     technique='Coq theorem (completeness of the LALR table by induction on parse trees, lookahead-annotated certificate) + sentences of conflict-free grammars fed to the real parsers + correspondence at I2-I6',
-    level_text='Proved in Coq: for the automaton built by the model, the executable DeRemer-Pennello lookaheads and the generated table, if no cell has two candidate actions then the LR machine accepts the yield of every valid parse tree with exactly its post-order as reductions (C02_complete), and so does the model pipeline as run, through the packed arrays and the array driver in every variant (C02_pipeline). The real parsers (5 variants) are run on every sentence up to the length bound and on sampled longer ones of every conflict-free corpus grammar; a rejected sentence is the failing input.',
+    level_text='Proved in Coq: for the automaton built by the model, the executable DeRemer-Pennello lookaheads and the generated table, if no cell has two candidate actions then the LR machine accepts the yield of every valid parse tree with exactly its post-order as reductions (C02_complete), and so does the model pipeline as run, through the packed arrays and the array driver in every variant (C02_pipeline). The real parsers (5 variants) are run on every sentence up to the length bound and on sampled longer ones of every conflict-free corpus grammar; a rejected sentence is the failing input. C02_from_the_text: the same from the bytes of the file, the well-formedness of the grammar object being proved (C01_front_delivers_wellformed), not assumed.',
     level_note=MODEL_NOTE + ' Hypothesis of C02_complete: grammar well-formedness facts and productivity (first of every sequence non-empty), established by yaccgo\'s own checks (C12).')
 reg('C03', run_C03, ['Prop_C03.v'], BERULE + 'non-trivial = grammars with >= 2 reductions one of which has >= 2 lookaheads; plus the real Digraph on random relations with cycles',
     technique='Coq theorem (executable DeRemer-Pennello sets = LR(1) lookaheads over all access paths, both inclusions) + comparison of the implementation\'s LA sets and warnings with the proved model on every corpus grammar',
-    level_text="Proved in Coq (C03_lookahead): for every grammar meeting the well-formedness facts, the model's lookahead list of every reduction in every state equals {t | exists access path gamma to the state with the LR(1) item [A -> alpha ., t] valid for gamma}, i.e. the union over the canonical LR(1) states with that core; the same for the lookahead sets the model pipeline actually computes and feeds to the table generator (C03_pipeline); a warning is recorded for a cell of the pipeline's tables exactly when its candidate actions - the shift and the reductions whose lookahead set contains the symbol - meet a pair in the pairwise resolution that lacks a precedence, and such a cell has at least two candidates, i.e. is an LALR(1) conflict (C03_warning, C03_warning_pipeline, C03_warning_needs_conflict). The implementation's LA sets and warning multiset are compared with the model on every corpus grammar; the real Digraph/Traverse/Union runs against transitive union on random relations with cycles (slices built as yaccgo builds them).",
+    level_text="Proved in Coq (C03_lookahead): for every grammar meeting the well-formedness facts, the model's lookahead list of every reduction in every state equals {t | exists access path gamma to the state with the LR(1) item [A -> alpha ., t] valid for gamma}, i.e. the union over the canonical LR(1) states with that core; the same for the lookahead sets the model pipeline actually computes and feeds to the table generator (C03_pipeline); a warning is recorded for a cell of the pipeline's tables exactly when its candidate actions - the shift and the reductions whose lookahead set contains the symbol - meet a pair in the pairwise resolution that lacks a precedence, and such a cell has at least two candidates, i.e. is an LALR(1) conflict (C03_warning, C03_warning_pipeline, C03_warning_needs_conflict). The implementation's LA sets and warning multiset are compared with the model on every corpus grammar; the real Digraph/Traverse/Union runs against transitive union on random relations with cycles (slices built as yaccgo builds them). C03_from_the_text: the lookahead sets computed for the grammar object built from a text are exactly the LALR(1) sets, with no hypothesis on the object (its well-formedness is proved: C01_front_delivers_wellformed).",
     level_note=MODEL_NOTE + ' Digraph is modelled as transitive union (saturation), the SCC bookkeeping of Traverse is tied by the differential run only.')
 reg('C04', run_C04, ['Prop_C04.v'], BERULE + 'non-trivial = grammars with precedence declarations; plus every pair of the finite (type, prec, assoc, index) grid through ResolveConflict/UseDefaultResolveConflict',
     technique='Coq theorems (resolution function by cases; every cell of the emitted table = resolution of its candidates; two-way conflict cells of the emitted table; which symbol gives a rule its precedence) + exhaustive differential run of the exported ResolveConflict/UseDefaultResolveConflict + dense-cell comparison with the model + rule precedence read back against the declarations + values of real expression parsers',
@@ -1082,7 +1082,7 @@ reg('C11', frontprops.run_C11, ['Prop_C11.v'], 'declaration mixes: seeded random
     level_note=MODEL_NOTE)
 reg('C12', frontprops.run_C12, ['Prop_C12.v'], 'seeded random usable grammars with one planted defect each: undefined symbol anywhere in a right-hand side; nonterminal without terminal derivation through left recursion, right recursion, mutual recursion, two recursive rules, unreachable, at the start symbol; %type name without rule; %start without rule; and the accept side: productive only through an empty rule, productive through a chain of unit rules listed in the unfavourable order, no defect. Compared: refusal and its reason (from the panic text) with the planted defect, and with the Coq front-end model run on the implementation\'s AST. non-trivial = grammars that must be refused',
     technique='Coq theorem (the sweep-until-stable loop computes exactly the productive symbols) + planted-defect grammars through the real front end + Coq front-end model (visit, build_grammar) on the implementation AST',
-    level_text='Proved in Coq: the fixpoint loop of CalculateCanTerminate/CalculateEpsilonClosure as modelled computes exactly the inductive predicate "derives a terminal string", with fuel |rules|+1 shown sufficient (C12_productive, C12_unproductive_exact); build_grammar and visit refuse exactly in the listed cases (undefined symbol, %type/%start name without rule, unproductive nonterminal, unknown %prec symbol) and otherwise return a grammar (C12_build_cases, C12_visit_cases); the only other refusal, \'too many states\', happens exactly when the LR(0) collection has 2000 states or more, and below that the worklist\'s fuel is irrelevant (C12_state_limit, C12_below_limit, C12_delivered_below_limit). The model is compared with the implementation on every run on grammars with planted defects of every kind and position (the planted nonterminal is sometimes called `start`), and the implementation\'s verdict is compared with the planted defect itself.',
+    level_text='Proved in Coq: the fixpoint loop of CalculateCanTerminate/CalculateEpsilonClosure as modelled computes exactly the inductive predicate "derives a terminal string", with fuel |rules|+1 shown sufficient (C12_productive, C12_unproductive_exact); build_grammar and visit refuse exactly in the listed cases (undefined symbol, %type/%start name without rule, unproductive nonterminal, unknown %prec symbol) and otherwise return a grammar (C12_build_cases, C12_visit_cases); the only other refusal, \'too many states\', happens exactly when the LR(0) collection has 2000 states or more, and below that the worklist\'s fuel is irrelevant (C12_state_limit, C12_below_limit, C12_delivered_below_limit). The model is compared with the implementation on every run on grammars with planted defects of every kind and position (the planted nonterminal is sometimes called `start`), and the implementation\'s verdict is compared with the planted defect itself. What is delivered when nothing is refused is well-formed (C12_delivered_is_wellformed): rule 0 is start -> S, right-hand sides use symbols of the file only (a name that stands for the end marker - a token declared with the code -1 - is refused in a rule, F26), the end marker heads no rule.',
     level_note=MODEL_NOTE + ' The 2000-state boundary is exercised on the implementation only (1999 states processed, 2000 refused); the model is characterised at that boundary by C12_state_limit but not run there.')
 
 reg('C16', genprops.run_C16, ['Prop_C16.v'], 'grammars: curated families, one grammar per group of literal characters covering every printable special character (quotes, backslash-free, %, $, braces, bar, space, backquote), seeded random grammars (operator tables, many literals, long rules and many alternatives, empty rules, precedences), declaration mixes; actions drawn from a pool that uses $$ and $n with typed symbols and contains %, format strings, block and line comments, strings with braces and quotes, raw strings, nested blocks; minimal prologue (package + import fmt / "use strict") and epilogue (GetToken). Every output path holds a longer, older file before generation (regenerate in place). Every file the CLI built from /repo reports as generated is compiled: the four Go variants as packages of one module through `go vet` (type check) and `go build`, the TypeScript variant loaded by node >= 22 with type stripping. non-trivial = (grammar, variant) pairs that the generator accepted',
